@@ -238,6 +238,8 @@ if __name__ == "__main__":
                    "states prepared by circuits on 1..4 qubits (single- and 4-thread registers): reported probabilities vs model, "
                    "measure_mask frequencies over %d fresh clones (full mask, partial mask, two masks in both orders) by chi-square at "
                    "1e-6, sample_all(100000) means and spreads over repeated draws; Sampler.v against rand::WeightedIndex on scripted "
-                   "draws (valid weights away from boundaries, all-zero / negative / NaN weights)" % (4000 if tier == "quick" else 25000),
+                   "draws (valid weights away from boundaries, all-zero / negative / NaN weights); registers of 15-16 qubits, serial and "
+                   "threaded, a mask with the highest qubits read twice (implementation only: reported probabilities lie on the states "
+                   "consistent with the outcome)" % (4000 if tier == "quick" else 25000),
                    assumptions=["statistical verdicts are reproducible for a given VERIF_SEED (seedable RNG hook); they support but do "
                                 "not prove the distributional claim: uniformity of thread_rng and normality of StandardNormal are trusted"])
